@@ -674,6 +674,7 @@ func childSeq(o *output) {
 	poisonOn.Store(false)
 	childBytePoolSeq(o)
 	childBytePoolResize(o)
+	cryptoShared(o, false)
 }
 
 func randomSpec(r *mrand.Rand, id int, big bool) pipeSpec {
